@@ -232,7 +232,7 @@ def _parse_signature_from_string(
 
     signature = signature.replace(" ", "")
 
-    if not re.match(_SIGNATURE, signature):
+    if not re.fullmatch(_SIGNATURE, signature):
         raise ValueError(f"Not a valid grid ufunc signature: {signature}")
 
     in_txt, out_txt = signature.split("->")
@@ -302,7 +302,7 @@ def _parse_signature_from_type_hints(
     str_signature = str(
         _GridUFuncSignature(in_ax_names, in_ax_pos, out_ax_names, out_ax_pos)
     )
-    if not re.match(_SIGNATURE, str_signature):
+    if not re.fullmatch(_SIGNATURE, str_signature):
         raise ValueError(f"Not a valid grid ufunc signature: {str_signature}")
 
     return in_ax_names, in_ax_pos, out_ax_names, out_ax_pos
